@@ -52,12 +52,13 @@ theorem decode_hex_byte_val (a b : BitVec 8) (ha : isHexB a = true) (hb : isHexB
     (Encoding.decode_hex_byte (a, b)).1 = (hexValB a).setWidth 8 * 16#8 + (hexValB b).setWidth 8 := by
   simp only [gen_defs, isHexB, hexValB] at *; bv_decide
 
-/-- `decode_hex_byte` in terms of `decode_nibble` (the shape the `Nat` model has) -/
+/-- `decode_hex_byte` in terms of `decode_nibble` (the shape the `Nat` model has; decided, not matched) -/
 theorem decode_hex_byte_shape (a b : BitVec 8) :
-    Encoding.decode_hex_byte (a, b) =
-      ((((Encoding.decode_nibble a) <<< 4) ||| Encoding.decode_nibble b).setWidth 8,
-       (((Encoding.decode_nibble a) <<< 4) ||| Encoding.decode_nibble b) >>> 8) := by
-  simp only [gen_defs]
+    (Encoding.decode_hex_byte (a, b)).1 =
+      (((Encoding.decode_nibble a) <<< 4) ||| Encoding.decode_nibble b).setWidth 8 ∧
+    (Encoding.decode_hex_byte (a, b)).2 =
+      (((Encoding.decode_nibble a) <<< 4) ||| Encoding.decode_nibble b) >>> 8 := by
+  constructor <;> simp only [gen_defs] <;> bv_decide
 
 /-! ## part 2 — bridges to the hand-written model (CB/Model/Encoding.lean) -/
 
@@ -84,7 +85,8 @@ theorem decodeNibble_bridge (c : BitVec 8) :
 theorem decodeHexByte_bridge (a b : BitVec 8) :
     CB.Encoding.decodeHexByte a.toNat b.toNat =
       ((Encoding.decode_hex_byte (a, b)).1.toNat, (Encoding.decode_hex_byte (a, b)).2.toNat) := by
-  rw [decode_hex_byte_shape]
+  obtain ⟨e1, e2⟩ := decode_hex_byte_shape a b
+  rw [e1, e2]
   simp only [CB.Encoding.decodeHexByte, decodeNibble_bridge, CB.Encoding.W16, BitVec.toNat_setWidth, BitVec.toNat_or,
     BitVec.toNat_shiftLeft, BitVec.toNat_ushiftRight, Nat.shiftLeft_eq, Nat.shiftRight_eq_div_pow, Nat.reducePow]
 
